@@ -227,13 +227,19 @@ def run(R):
             L.segs = [dict(pfn=2, npages=n, voff=0)]
             L.present = {2 + i: 0 for i in range(n)}
             L.nuls = [R.rng.randrange(2 * L.ps, (2 + n) * L.ps) for _ in range(6)]
-            L.write()
-            L.oracle = {(1, pf * L.ps): dumpgen.page_bytes(pf, L.ps, L.nuls) for pf in L.present}
+            # six of the stored frames do not inflate: their reads fail in the fill function, below the page cache
+            badpf = set(R.rng.sample(sorted(L.present), 6))
+            pages = sorted(L.present)
+            dumpgen.write_diskdump(L.path, pages, ps=L.ps, max_mapnr=max(pages) + 4, ram=range(max(pages) + 4), nuls=L.nuls,
+                                   methods={p: ("zlib-bad" if p in badpf else "zlib" if p % 3 == 0 else "raw") for p in pages})
+            L.oracle = {(1, pf * L.ps): ("corrupt" if pf in badpf else dumpgen.page_bytes(pf, L.ps, L.nuls)) for pf in L.present}
             L.oracle.update({(1, pf * L.ps): "nodata" for pf in (0, 1, 2 + n, 3 + n)})
             L3s.append(L)
             allpages = sorted(k for k, v in L.oracle.items() if not isinstance(v, str))
             pages = R.rng.sample(allpages, 12)
             l3 += ["open %s %d" % (L.path, L.ps), "cache 4"]; m3 += [None] * 2
+            for pf in sorted(badpf):               # failing page reads must not take anything from later reads either
+                l3.append("read 1 %d %d" % (pf * L.ps, L.ps)); m3.append((li, "badread", 1, pf * L.ps))
             for k, (a, p) in enumerate(pages):
                 l3.append("strf %d %d %d" % (a, p + R.rng.choice([0, 5, L.ps - 3]), 1 + k % 3 // 2)); m3.append((li, "strf", a, p))
             for (a, p) in allpages[::-1]:
@@ -260,6 +266,9 @@ def run(R):
                         want = "ok %d %d" % (len(data), dumpgen.fnv(data)) if st == "ok" else "%s - -" % st
                         if st is not None and " ".join(t[:3]) != want:
                             fail3 = "'%s' answered '%s', single-page reads give '%s'" % (l, o, want)
+                elif typ == "badread":
+                    if o.split()[0] == "ok":
+                        fail3 = "'%s' of a frame whose compressed data does not inflate answered '%s'" % (l, o)
                 else:
                     want = "ok %d %d" % (L.ps, dumpgen.fnv(L.oracle[(a, p)]))
                     if o.split(" C16:")[0] != want:
